@@ -9,6 +9,8 @@
 -/
 import Aegean.Proofs.C08Refine
 import Aegean.Proofs.C08SessionThm
+import Aegean.Proofs.C08Leaves
+import Aegean.Model.C08Gen
 
 namespace Aegean.Properties.C08
 open Aegean.Model.C08 Aegean.Proofs.C08
@@ -344,6 +346,119 @@ example :
     ((sessRun s0 [.save 0, .load 0, .op (.without o), .load 0]).1.cur.pd 3,
      (sessRun s0 [.save 0, .load 0, .op (.without o)]).1.cur.pd 3) = ([0, 1, 9], [0, 9]) := by
   decide +kernel
+
+/-! ### obligations on the regenerated leaves (`Gen.C08.*`, re-translated from `regions.py` on every run)
+
+  Each says: the expression / loop range found in the source is the canonical one the hand model uses.  They are
+  written to survive harmless rewrites (and the hand fallback, where they are `rfl`) and to break on a real change:
+  `/` for `//`, `4*(d-m)` for `4**(d-m)`, a shifted range, a dropped child, a weakened guard. -/
+
+theorem children_eq : Gen.C08.children = Hand.children := by
+  funext p
+  first
+    | rfl
+    | (simp only [Gen.C08.children, Hand.children]; done)
+    | (simp only [Gen.C08.children, Hand.children, List.cons.injEq, and_true, true_and]; omega)
+    | (simp only [Gen.C08.children, Hand.children, List.cons.injEq, and_true, true_and]; (repeat' constructor) <;> omega)
+
+theorem parent_eq : Gen.C08.parent = Hand.parent := by
+  funext p
+  first
+    | rfl
+    | (simp only [Gen.C08.parent, Hand.parent]; omega)
+
+theorem quadHead_eq : Gen.C08.quadHead = Hand.quadHead := by
+  funext p
+  first
+    | rfl
+    | (simp only [Gen.C08.quadHead, Hand.quadHead, Bool.eq_iff_iff, decide_eq_true_eq, beq_iff_eq]; omega)
+    | (simp only [Gen.C08.quadHead, Hand.quadHead, Bool.eq_iff_iff, decide_eq_true_eq, beq_iff_eq])
+
+theorem degrade_eq : Gen.C08.degrade = Hand.degrade := by
+  funext p d m
+  first
+    | rfl
+    | (simp only [Gen.C08.degrade, Hand.degrade, Int.toNat_sub])
+
+theorem demoteLevels_eq : Gen.C08.demoteLevels = Hand.demoteLevels := by
+  funext m
+  first
+    | rfl
+    | (simp only [Gen.C08.demoteLevels, Hand.demoteLevels, pyRange_step1])
+    | (simp only [Gen.C08.demoteLevels, Hand.demoteLevels, pyRange_step1]; congr 1 <;> omega)
+
+theorem renormLevels_eq : Gen.C08.renormLevels = Hand.renormLevels := by
+  funext m
+  first
+    | rfl
+    | (simp only [Gen.C08.renormLevels, Hand.renormLevels])
+
+theorem unionShared_eq : Gen.C08.unionShared = Hand.unionShared := by
+  funext m om
+  first
+    | rfl
+    | (simp only [Gen.C08.unionShared, Hand.unionShared, pyRange_step1]; congr 1; (try split) <;> omega)
+
+theorem unionFiner_eq : Gen.C08.unionFiner = Hand.unionFiner := by
+  funext m om
+  first
+    | rfl
+    | (simp only [Gen.C08.unionFiner, Hand.unionFiner, pyRange_step1]; congr 1 <;> omega)
+
+theorem finer_eq : Gen.C08.finer = Hand.finer := by
+  funext m om
+  first
+    | rfl
+    | (simp only [Gen.C08.finer, Hand.finer, Bool.eq_iff_iff, decide_eq_true_eq]; omega)
+
+theorem areaLevels_eq : Gen.C08.areaLevels = Hand.areaLevels := by
+  funext m
+  first
+    | rfl
+    | (simp only [Gen.C08.areaLevels, Hand.areaLevels, pyRange_step1]; congr 1 <;> omega)
+
+theorem sameDepthW_eq : Gen.C08.sameDepthW = Hand.sameDepth := by
+  funext m om
+  first
+    | rfl
+    | (by_cases h : m = om <;> simp [Gen.C08.sameDepthW, Hand.sameDepth, h])
+
+theorem sameDepthI_eq : Gen.C08.sameDepthI = Hand.sameDepth := by
+  funext m om
+  first
+    | rfl
+    | (by_cases h : m = om <;> simp [Gen.C08.sameDepthI, Hand.sameDepth, h])
+
+theorem sameDepthX_eq : Gen.C08.sameDepthX = Hand.sameDepth := by
+  funext m om
+  first
+    | rfl
+    | (by_cases h : m = om <;> simp [Gen.C08.sameDepthX, Hand.sameDepth, h])
+
+/-- all thirteen at once -/
+theorem gen_leaves_canon : genLeaves = canonLeaves := by
+  simp only [genLeaves, canonLeaves, children_eq, parent_eq, quadHead_eq, degrade_eq, demoteLevels_eq, renormLevels_eq,
+    unionShared_eq, unionFiner_eq, finer_eq, areaLevels_eq, sameDepthW_eq, sameDepthI_eq, sameDepthX_eq]
+
+/-- **stepGen_eq_step**: the model the driver executes — hand-written glue (`Model.C08.stepL`) around the regenerated
+    arithmetic and loop ranges — *is* the hand model `step` about which every theorem above is stated.  Hence
+    `refines_all_histories`, `queries_are_readonly`, `no_double_cover`, `ids_valid`, `area_eq_card`, `normal_form`,
+    `sessions_refine`, `load_returns_saved` hold of the regenerated model verbatim. -/
+theorem stepGen_eq_step : stepGen = step := by
+  unfold stepGen; rw [gen_leaves_canon]; exact stepL_canon
+
+theorem operandAfterGen_eq : operandAfterGen = operandAfter := by
+  unfold operandAfterGen; rw [gen_leaves_canon]; exact operandAfterL_canon
+
+theorem sessStepGen_eq (s : Session) (op : SessOp) : sessStepGen s op = sessStep s op := by
+  unfold sessStepGen; rw [stepGen_eq_step]; exact sessStepWith_step s op
+
+/-- the one-step refinement, stated directly for the regenerated model -/
+theorem abs_obs_stepGen {r : Region} {s : SS} (op : Op) (hv : Valid r) (hok : OpOk op) (hrel : Rel r s) :
+    (∃ r' ob s' sob, stepGen r op = .ok (r', ob) ∧ Aegean.Spec.C08.step s (absOp op) = .ok (s', sob) ∧
+        Rel r' s' ∧ ObsEq (NoDC r) ob sob) ∨
+    (∃ e, stepGen r op = .error e ∧ Aegean.Spec.C08.step s (absOp op) = .error (errMap e)) := by
+  rw [stepGen_eq_step]; exact abs_obs_step op hv hok hrel
 
 /-! ### non-vacuity -/
 
